@@ -195,3 +195,25 @@ pub fn run<T: Send + 'static>(tasks: Vec<Box<dyn FnOnce(&TaskCtx) -> T + Send>>,
     let info = RunInfo { switches: g.switches, yields: g.yields, trace: g.trace.clone(), choices_used: pos.min(choices.len()) };
     Ok((out, info))
 }
+
+/// All schedules of `len` decisions with at most two forced choices (the rest = 0 = "keep running the same
+/// task"): a CHESS-style pre-emption bound. With n runnable tasks the forced choice values select each of them.
+pub fn bounded_schedules(len: usize, ntasks: usize) -> Vec<Vec<u16>> {
+    let picks: Vec<u16> = (0..ntasks).map(|i| (((i as u32 * 65536) / ntasks as u32) + 2) as u16).collect();
+    let mut out = vec![vec![0u16; len]];
+    for i in 0..len {
+        for a in picks.iter() {
+            let mut s = vec![0u16; len];
+            s[i] = *a;
+            out.push(s.clone());
+            for j in i + 1..len {
+                for b in picks.iter() {
+                    let mut s2 = s.clone();
+                    s2[j] = *b;
+                    out.push(s2);
+                }
+            }
+        }
+    }
+    out
+}
